@@ -49,7 +49,7 @@ def scen_term(sp):
     res = []
     for r in sp["resolvers"]:
         stages = ["mkStage %s %s" % (clist([out_term(o) for o in s["outs"]]),
-                                     "None" if not s["rep"] else "(Some %s)" % rep_term(s["rep"]))
+                                     clist([rep_term(x) for x in s["rep"]]))
                   for s in r["stages"]]
         res.append("mkSpec %s %s" % (cN(r["key"]), clist(stages)))
     return "(mkScen %s %s %s %s %s %s %s %s %s)" % (
@@ -59,6 +59,15 @@ def scen_term(sp):
         clist([cN(i) for i in sp["finals_closed"]]), clist(res))
 
 
+def con_key(typ, inc, res, pre):
+    """persisted resolver -> key of the scenario's stage table; for the
+    received-htlc resolvers (success 1, incoming contest 3) the key also says
+    whether the preimage is persisted inside the resolver."""
+    if typ in (1, 3):
+        return "%d,%d,%d,%d" % (typ, inc, res, pre)
+    return "%d,%d,%d" % (typ, inc, res)
+
+
 class Unmapped(Exception):
     pass
 
@@ -66,9 +75,9 @@ class Unmapped(Exception):
 def snap_term(sp, d):
     ptabs = {r["key"]: r["ptab"] for r in sp["resolvers"]}
     con = []
-    for key, typ, inc, res in d["con"]:
+    for key, typ, inc, res, pre in d["con"]:
         tab = ptabs.get(key)
-        k = "%d,%d,%d" % (typ, inc, res)
+        k = con_key(typ, inc, res, pre)
         if tab is None or k not in tab:
             raise Unmapped("persisted resolver key=%s (type,incubating,resolved)=%s is not a "
                            "stage of the scenario's resolver script" % (key, k))
@@ -98,9 +107,28 @@ def progress_of(sp, d):
     """key -> (stages completed) using the scenario tables; None if unknown."""
     ptabs = {r["key"]: r["ptab"] for r in sp["resolvers"]}
     res = {}
-    for key, typ, inc, rs in d["con"]:
-        res[key] = ptabs.get(key, {}).get("%d,%d,%d" % (typ, inc, rs))
+    for key, typ, inc, rs, pre in d["con"]:
+        res[key] = ptabs.get(key, {}).get(con_key(typ, inc, rs, pre))
     return res
+
+
+F3_SIG = "C13 lost:htlc-actions-after-restart-in-contract-closed "
+
+
+def f3_window(c):
+    """Finding C13-F3: the run has a stop while the arbitrator log says
+    StateContractClosed and the scenario has no htlc within the broadcast
+    delta at the closing height: the restarted node re-runs the state with
+    chainTrigger, for which checkCommitChainActions yields no actions."""
+    if not c["spec"].get("farexp"):
+        return False
+    prev = None
+    for it in c["trace"]:
+        if it["t"] == "snap":
+            prev = it["d"]
+        elif prev is not None and prev["st"] == 3:
+            return True
+    return False
 
 
 def predicate(c, base):
@@ -109,6 +137,7 @@ def predicate(c, base):
     fails = []
     sp = c["spec"]
     name = sp["name"]
+    f3 = f3_window(c)
     # resolved only when done: in every database content the channel is
     # marked fully closed only with no contract left, and it is marked while
     # the log says FullyResolved.
@@ -133,6 +162,22 @@ def predicate(c, base):
     if fl & st:
         fails.append(("C13_no_contradiction", "C13 contradiction " + name,
                       "htlc(s) %s both failed and settled upstream" % sorted(fl & st)))
+    # no received htlc is both finally settled (claimed with the preimage) and
+    # finally failed (abandoned / timed out); no resolver reports both
+    fs = {o[1] for o in c["outs"] if o[0] == 3 and o[2] == 1}
+    ff = {o[1] for o in c["outs"] if o[0] == 3 and o[2] == 0}
+    if fs & ff:
+        fails.append(("C13_incoming_no_contradiction", "C13 contradiction-final " + name,
+                      "htlc(s) %s have both a settled and a failed final outcome" % sorted(fs & ff)))
+    for r in sp["resolvers"]:
+        if not r["kind"].startswith("in_"):
+            continue
+        mine = {tuple(x) for st in r["stages"] for x in st["rep"]} | {(r["key"], 0), (r["key"], 3)}
+        got = {tuple(x) for x in c["end"]["rep"]} & mine
+        if any(x[1] == 0 for x in got) and any(x[1] == 3 for x in got):
+            fails.append(("C13_incoming_no_contradiction", "C13 contradiction-report " + name,
+                          "received htlc %s reported both claimed and timed out: %s"
+                          % (r["idx"], sorted(got))))
     # nothing the uninterrupted run does not do
     # (ForceCloseChan / PublishTx calls, kinds 4 and 5, are compared with the
     # model only: a restart may legitimately re-publish)
@@ -143,7 +188,7 @@ def predicate(c, base):
                       "outputs %s never happen in the uninterrupted run" % sorted(co - bo)))
     # same terminal outcome
     if not c["end"]["full"]:
-        sig = "C13 stuck:other %s" % name
+        sig = (F3_SIG + name) if f3 else "C13 stuck:other %s" % name
         msg = "never marked fully resolved; final database %s" % c["end"]
         fails.append(("C13_progress", sig, msg))
     else:
@@ -153,6 +198,8 @@ def predicate(c, base):
             if missing and spurious and all(o[0] == 1 and o[1] in sp["fails_default"]
                                             for o in missing):
                 sig = "C13 lost:dust-failback-after-spurious-broadcast " + name
+            elif f3 and missing and not (co - bo):
+                sig = F3_SIG + name
             else:
                 sig = "C13 outcome-differs " + name
             fails.append(("C13_same_outcome", sig,
@@ -161,7 +208,8 @@ def predicate(c, base):
         br = {tuple(r) for r in base["end"]["rep"]}
         cr = {tuple(r) for r in c["end"]["rep"]}
         if br != cr:
-            fails.append(("C13_same_outcome", "C13 reports-differ " + name,
+            fails.append(("C13_same_outcome",
+                          (F3_SIG + name) if f3 and cr < br else "C13 reports-differ " + name,
                           "reports %s vs uninterrupted %s" % (sorted(cr), sorted(br))))
     return fails
 
@@ -217,7 +265,7 @@ def run(ctx):
         return
     base = {}
     for c in rows:
-        if not c["crashes"] and c["spec"]["name"] not in base:
+        if not c["crashes"] and not c.get("envcrash") and c["spec"]["name"] not in base:
             base[c["spec"]["name"]] = c
     sigs = {}
     reported = set()
@@ -238,7 +286,7 @@ def run(ctx):
                           failing_input=False)
             continue
         b = base[c["spec"]["name"]]
-        if not c["crashes"] and not c["end"]["full"]:
+        if not c["crashes"] and not c.get("envcrash") and not c["end"]["full"]:
             ctx.violation("impl_violates_predicate", "C13_same_outcome",
                           {"case": c, "fails": ["uninterrupted run does not terminate"]},
                           signature="C13 base-not-terminal " + c["spec"]["name"])
@@ -252,18 +300,26 @@ def run(ctx):
                 continue
             reported.add(key)
             ctx.violation("impl_violates_predicate", thm,
-                          {"case": {"spec": c["spec"], "crashes": c["crashes"], "id": c["id"]},
+                          {"case": {"spec": c["spec"], "crashes": c["crashes"], "id": c["id"],
+                                    "envcrash": c.get("envcrash", False)},
                            "end": c["end"], "outs": c["outs"], "uninterrupted_outs": b["outs"],
                            "fails": [msg]}, signature=sig)
     # correspondence with the model
     terms, idx = [], []
+    f3_runs = 0
     for i, c in enumerate(rows):
+        if f3_window(c):
+            # outside the model: it assumes that re-running
+            # StateContractClosed computes the close-trigger actions
+            f3_runs += 1
+            continue
         try:
             terms.append(case_term(c))
             idx.append(i)
         except Unmapped as e:
             ctx.violation("correspondence_mismatch", "Arb.RestartExec (resolver script)",
-                          {"case": {"spec": c["spec"], "crashes": c["crashes"]}, "why": str(e)},
+                          {"case": {"spec": c["spec"], "crashes": c["crashes"],
+                                    "envcrash": c.get("envcrash", False)}, "why": str(e)},
                           signature="C13 unmapped " + c["spec"]["name"],
                           failing_input=bool(predicate(c, base[c["spec"]["name"]])))
     ok, bad, logs = coq_mismatches(ctx.uid(), IMPORTS, terms, shard=max(4, len(terms) // NCPU + 1))
@@ -277,7 +333,8 @@ def run(ctx):
         if nb > 3:
             break
         ctx.violation("correspondence_mismatch", "Arb.RestartExec.check_case",
-                      {"case": {"spec": c["spec"], "crashes": c["crashes"], "id": c["id"]},
+                      {"case": {"spec": c["spec"], "crashes": c["crashes"], "id": c["id"],
+                                    "envcrash": c.get("envcrash", False)},
                        "disagreeing_items": items,
                        "legend": "index of the first database snapshot that is not a model step; "
                                  "9000 final database, 9001 output set, 9002 scenario ill-formed",
@@ -295,8 +352,9 @@ def run(ctx):
             pos[n] = pos.get(n, 0) + 1
     ctx.cov.update({
         "evaluations": len(rows),
-        "distinct_nontrivial": distinct_count([c for c in rows if c["crashes"]],
-                                              lambda c: (c["spec"]["name"], c["crashes"])),
+        "distinct_nontrivial": distinct_count([c for c in rows if c["crashes"] or c.get("envcrash")],
+                                              lambda c: (c["spec"]["name"], c["crashes"],
+                                                         c.get("envcrash", False))),
         "rule": "per close scenario: the uninterrupted run, a stop after EVERY committed kvdb "
                 "transaction (n = 0..N-1), seeded repeated stops (all pairs + random triples.. in "
                 "thorough); non-trivial = at least one stop; distinct by (scenario, stop schedule)",
@@ -308,6 +366,11 @@ def run(ctx):
             1 for c in rows if not c["spec"]["userfc"] and any(o[0] == 4 for o in c["outs"])),
         "runs_not_terminal": sum(1 for c in rows if not c["end"]["full"]),
         "f1_window_runs": f1_runs, "f1_window_runs_terminal": f1_term,
+        "f3_window_runs_not_compared_with_model": f3_runs,
+        "env_crash_runs": sum(1 for c in rows if c.get("envcrash")),
+        "received_htlc_final_outcomes": {
+            "settled": sum(1 for c in rows for o in c["outs"] if o[0] == 3 and o[2] == 1),
+            "failed": sum(1 for c in rows for o in c["outs"] if o[0] == 3 and o[2] == 0)},
         "progress_regressions_observed": lost,
         "predicate_failures_by_class": sigs,
         "samples": [{"scenario": rows[0]["spec"]["name"], "crashes": rows[0]["crashes"]}],
